@@ -20,17 +20,21 @@ Tolerances (all derived here, see ``tol_pos``):
   are each within E of the truth differ by <= 2E, still 15x inside the tolerance.  Velocity tolerance = position
   tolerance * perigee angular rate (+1e-12 km/s).
 * ``solveKeplerProblemUniversal`` stops when the universal anomaly moves by < ``_ATOL`` = 1.48e-8 sqrt(km) and evaluates
-  f, g with the Stumpff terms of the previous iterate: dt = dchi * r / sqrt(mu) => position error <= _ATOL * r v /
-  sqrt(mu) <= _ATOL * sqrt(2 r) (measured worst 0.15 of that for bound orbits).  Tolerance 2x that bound + 1e-8 km.
+  f, g with the new chi but the Stumpff terms of the previous iterate; the resulting position error is bounded by
+  _ATOL * (sqrt(2 r) + sqrt(a) + 2 a v0 / sqrt(mu)) (derivation in ``_tol_universal``; measured worst 0.5 of that bound
+  over 13 seeds, 4.7e-6 km).  Tolerance 2x the bound + 1e-8 km.
 * start-epoch shift under SP: the two runs see forces that differ by the rounding of the Julian date (resolution
   4e-5 s); that is enough to flip one accept/reject decision of the step-size controller, after which the two
   trajectories differ by up to the integrator's own global error E(T) (measured: 1.6e-8 km at T = 300 s with DOP853,
-  i.e. 0.02 E-envelopes; RK45 stays at 1e-11).  Tolerance = tol_pos / 10 = 3 E-envelopes (2e-5 km for a LEO hour); an
+  i.e. 0.02 E-envelopes; RK45 stays at 1e-11).  Tolerance = tol_pos / 5 = 6 E-envelopes (4e-5 km for a LEO hour); an
   epoch that ignores or mis-scales the elapsed time is off by the shift itself (1000 s => 4e-2 km per LEO hour).
+* propagateBulk output between step ends comes from the integrator's dense-output interpolant, whose error is not
+  what rtol controls (measured <= 3x the step-end error): tolerance 3 * tol_pos for grid outputs.
 * conservation: an energy error dE/E equals da/a; the along-track drift 3 pi revs da stays below the position
-  envelope E(T), so |dE/E| <= E(T) / (3 pi revs a) ~ eps_loc (2 + 20 revs^2) / (10 revs a); measured worst 1.3e-9
-  (RK45, one LEO day), 3e-11 for an hour.  Tolerance 1e-12 + rtol * 30 * (1 + 2 revs), same for |h| and the
-  direction of h (radians).
+  envelope E(T), so |dE/E| <= E(T) / (3 pi revs a) ~ rtol (2 + 20 revs^2) / (10 revs), i.e. linear in revs for
+  long spans; measured worst 1.1e-9 (RK45, one LEO hour) and 1.3e-9 (one LEO day).  Tolerance
+  1e-12 + 300 * rtol * (1 + 2 revs) (7e-8 for a LEO hour: 60x the measured value; any force or layout slip changes
+  the energy by > 1e-6), same for |h| and the direction of h (radians).
 """
 from __future__ import annotations
 
@@ -90,7 +94,7 @@ ASSUMPTIONS = [
     "events used to force a restart are test doubles deriving from DiscreteStateChangeEvent with a constant state "
     "change; scheduling/queueing of real impulses belongs to C01/C15",
 ]
-EXPECT_MIN_NONTRIVIAL = 3000
+EXPECT_MIN_NONTRIVIAL = 10000
 
 RTOL = 1e-10  # Dynamics.RELATIVE_TOL the tolerances were calibrated for (checked in the helpers item)
 ATOL = 1e-12
@@ -117,6 +121,7 @@ SP_CFG = {
     "sp_g8": (8, 8, [], False, False),
 }
 SAT_RATIO = 0.0605  # (1 + 0.21) * 25 m^2 / 500 kg
+A_SRP = 4.56e-6 * SAT_RATIO / 1000.0  # km/s^2 at 1 au: solar pressure 4.56e-6 N/m^2 times (1 + reflectivity) A / m
 EPOCH_SHIFTS = [1.0, 1000.0, 86400.0, -300.0]
 RESTART_DV = [0.010, -0.020, 0.005]  # km/s, constant state change of the test event
 
@@ -184,7 +189,7 @@ def items(tier, seed):
     out = []
     all_idx = list(range(90))
     # ---- two-body, spans up to an hour: all 90 orbits, partitioned into batches; column assignment rotated
-    rotations = list(range(13)) if thorough else [0]
+    rotations = list(range(7)) if thorough else [0]
     starts = {1.0: 0.0, 10.0: 259217.0, 300.0: 0.0, 3600.0: 7200.0}
     for method in METHODS:
         for T in SHORT_SPANS:
@@ -223,6 +228,8 @@ def items(tier, seed):
                 if not thorough and T >= 3600.0 and method == "RK45":
                     order, pattern = order[:4], [2, 1, 1]  # an SP hour costs 0.35 s with RK45 (0.13 s with DOP853)
                 mode = "sp" if (thorough or T < 3600.0) else "sp_lean"
+                if T >= 43200.0 and method == "RK45":
+                    continue  # half a day of SP with RK45 costs 4 CPU s per propagation: DOP853 only
                 for ch in _chunks(order, pattern):
                     out.append(["prop", cfg, method, T, t0, jd0, mode, [_orbit(i, seed) for i in ch]])
     # ---- closed-form solver and helpers
@@ -233,6 +240,11 @@ def items(tier, seed):
     out.append(["stumpff", seed])
     # heaviest first so that the pool drains evenly
     out.sort(key=lambda it: -_cost(it))
+    only = os.environ.get("VERIF_C03_ITEMS")  # development aid (seeded-change runs): regex on "<kind>/<dynamics>/<method>/<T>"
+    if only:
+        import re  # noqa: PLC0415
+
+        out = [it for it in out if re.search(only, "/".join(str(x) for x in it[:4]) if it[0] == "prop" else it[0])]
     return out
 
 
@@ -292,16 +304,32 @@ class _RestartEvent(ScheduledImpulse):
     def __init__(self, time, delta):
         super().__init__(float(time), np.asarray(delta, dtype=float)[3:], 0)
         self.calls = 0
+        self.fired_at = []
 
     def getStateChange(self, time, state):
         self.calls += 1
+        self.fired_at.append(float(time))
         return self.thrust.copy()
 
     @property
     def suffix(self):
         """Root-cause tag: a comparison that fails while the event fired more (or less) than once is a different
-        defect (event handling) from one that fails although the event fired exactly once (restart bookkeeping)."""
-        return "" if self.calls == 1 else ("/event_retriggered" if self.calls > 1 else "/event_not_applied")
+        defect (event handling) from one that fails although the event fired exactly once (restart bookkeeping).
+        The two mechanisms recorded as known finding F-C03-1 are recognised by their own evidence, so that any other
+        reason for a second firing keeps a signature of its own:
+        * fpe_window: ScheduledImpulse.__call__ returns exactly 0.0 while |t - time| < 1e-15; a restart one ulp later
+          is still inside that window iff ulp(time) < 1e-15, i.e. time < 8 s;
+        * root_early: the first firing was recorded before the event time (root finder one ulp early), so the restart
+          one ulp later is not yet past the event."""
+        if self.calls == 1:
+            return ""
+        if self.calls == 0:
+            return "/event_not_applied"
+        if abs(self.time) < 8.0:
+            return "/event_retriggered/known_fpe_window"
+        if self.fired_at[0] < self.time:
+            return "/event_retriggered/known_root_early"
+        return "/event_retriggered/unexplained"
 
 
 def _dynamics(kind, method, jd):
@@ -324,6 +352,21 @@ class _Ctx:
         self.res, self.item, self.kind, self.method, self.T, self.t0 = res, item, kind, method, T, t0
         self.mode = item[6]
         self.ratios = {}
+        # Solar radiation pressure with the eclipse model is a non-smooth force (LEO penumbra lasts ~8 s, a DOP853 step
+        # ~300 s): a step straddling the transition is accepted although the jump falls between its stages, so the
+        # eclipse is mis-timed by up to a step and the result depends on step placement by up to the whole SRP
+        # displacement a_srp T^2 / 2 (measured on this tree: 9.8e-4 km of 1.8e-3 km for a LEO hour with DOP853, 1e-9 km
+        # with RK45).  Configurations with SRP therefore get a_srp T^2 (x2 margin) added; layout / restart / epoch slips
+        # (km-level) stay visible, SRP-sized effects do not (the force value itself is C13's subject).
+        srp = kind != "twobody" and SP_CFG[kind][3]
+        self.srp_pos = A_SRP * T * T if srp else 0.0
+        self.srp_vel = 2.0 * A_SRP * T if srp else 0.0
+
+    def tp(self, a, e):
+        return tol_pos(a, e, self.T) + self.srp_pos
+
+    def tv(self, a, e):
+        return tol_vel(a, e, self.T) + self.srp_vel
 
     def base(self, orb, **kw):
         d = {"dyn": self.kind, "method": self.method, "T": self.T, "t0": self.t0, "a": orb[0], "e": orb[1], "inc": orb[2],
@@ -359,8 +402,11 @@ class _Ctx:
                              outcome="within" if ok else "outside", item=self.item)
 
 
-CALL_TIMEOUT_S = 600  # the slowest call of the thorough lattice takes ~5 s on an idle core; a restart loop that never
-# terminates (seen during development for negative times, which are outside the lattice) must become a verdict, not a hang
+CALL_TIMEOUT_S = 60  # CPU seconds of this process (ITIMER_VIRTUAL: independent of machine load). The slowest call of the
+# thorough lattice takes ~5 CPU s; a restart loop that never terminates (seen during development for negative times,
+# which are outside the lattice) must become a verdict, not a hang. After the first timeout the rest of the item's calls
+# are reported as skipped instead of burning another minute each.
+_HUNG = {"flag": False}
 
 
 class _CallTimeout(Exception):
@@ -368,28 +414,38 @@ class _CallTimeout(Exception):
 
 
 def _on_alarm(signum, frame):
-    raise _CallTimeout(f"call did not return within {CALL_TIMEOUT_S} s")
+    raise _CallTimeout(f"call did not return within {CALL_TIMEOUT_S} CPU seconds")
 
 
 def _call(fn, *a, **kw):
+    if _HUNG["flag"]:
+        return _CallTimeout("skipped: an earlier call of this item did not return")
     try:
-        old = signal.signal(signal.SIGALRM, _on_alarm)
+        old = signal.signal(signal.SIGVTALRM, _on_alarm)
     except ValueError:  # not in the main thread: no watchdog
         old = None
     try:
         if old is not None:
-            signal.alarm(CALL_TIMEOUT_S)
+            signal.setitimer(signal.ITIMER_VIRTUAL, CALL_TIMEOUT_S)
         return fn(*a, **kw)
+    except _CallTimeout as exc:
+        _HUNG["flag"] = True
+        return exc
     except Exception as exc:  # noqa: BLE001 - an exception on a lattice point is a reported outcome, not a harness error
         return exc
     finally:
         if old is not None:
-            signal.alarm(0)
-            signal.signal(signal.SIGALRM, old)
+            signal.setitimer(signal.ITIMER_VIRTUAL, 0)
+            signal.signal(signal.SIGVTALRM, old)
 
 
 def _bad(x):
     return isinstance(x, Exception)
+
+
+def _sfx(ev, got):
+    """Event root-cause tag; an exception raised before the event could fire is not an event-handling symptom."""
+    return "" if (_bad(got) and ev.calls == 0) else ev.suffix
 
 
 # ------------------------------------------------------------------------------------------------ propagation item
@@ -413,7 +469,7 @@ def _run_prop(res, item):
 
     for orb, x0 in zip(orbs, x0s):
         a, e = orb[0], orb[1]
-        tp, tv = tol_pos(a, e, T), tol_vel(a, e, T)
+        tp, tv = ctx.tp(a, e), ctx.tv(a, e)
         whole = _call(dyn.propagate, t0, t2, x0)
         wholes.append(whole)
         sep = {1.0: whole}  # fraction -> separately propagated state t0 -> t0 + f T
@@ -469,7 +525,7 @@ def _run_prop(res, item):
         if mid is not None and not _bad(mid):
             ev0 = _RestartEvent(t1, np.zeros(6))
             got = _call(dyn.propagate, t0, t2, x0, scheduled_events=[ev0])
-            ctx.compare("restart", orb, got, whole, tp, tv, nontrivial=True, detail="null_event" + ev0.suffix, extra={"frac": f, "dv": 0})
+            ctx.compare("restart", orb, got, whole, tp, tv, nontrivial=True, detail="null_event" + _sfx(ev0, got), extra={"frac": f, "dv": 0})
             res.case("restart_once", ctx.base(orb, frac=f, event_time=t1), ev0.calls == 1, nontrivial=True,
                      signature=f"C03/restart/{kind}/{method}/fired_once{ev0.suffix}", observed={"fired": ev0.calls}, expected={"fired": 1},
                      outcome=f"fired={min(ev0.calls, 3)}", item=item)
@@ -479,7 +535,7 @@ def _run_prop(res, item):
                 got = _call(dyn.propagate, t0, t2, x0, scheduled_events=[ev1])
                 want = _call(dyn.propagate, t1, t2, mid + delta)
                 if not _bad(want):
-                    ctx.compare("restart", orb, got, want, tp, tv, nontrivial=True, detail="state_change" + ev1.suffix,
+                    ctx.compare("restart", orb, got, want, tp, tv, nontrivial=True, detail="state_change" + _sfx(ev1, got),
                                 extra={"frac": f, "dv": 1, "event_time": t1, "fired": ev1.calls})
         # -- SP: only absolute epoch + state matter
         if not two_body:
@@ -502,7 +558,7 @@ def _run_prop(res, item):
         gb2 = np.asarray(gb).reshape(6, K)
         for k, orb in enumerate(orbs):
             a, e = orb[0], orb[1]
-            ctx.compare("batch", orb, gb2[:, k], wholes[k], tol_pos(a, e, T), tol_vel(a, e, T), nontrivial=K > 1, detail="column",
+            ctx.compare("batch", orb, gb2[:, k], wholes[k], ctx.tp(a, e), ctx.tv(a, e), nontrivial=K > 1, detail="column",
                         extra={"K": K, "col": k})
             if two_body:
                 _conserve(ctx, orb, x0s[k], gb2[:, k], K > 1, "batch")
@@ -520,7 +576,7 @@ def _run_prop(res, item):
             a, e = orb[0], orb[1]
             for j, f in enumerate(gf):
                 if f in seps[k] and not _bad(seps[k][f]):
-                    ctx.compare("grid", orb, out[:, k, j], seps[k][f], tol_pos(a, e, T), tol_vel(a, e, T), nontrivial=True, detail="layout2d",
+                    ctx.compare("grid", orb, out[:, k, j], seps[k][f], ctx.tp(a, e), ctx.tv(a, e), nontrivial=True, detail="layout2d",
                                 extra={"K": K, "col": k, "grid": "grid3", "j": j, "frac": f})
     # restart inside a batch: the same constant change is added to every column at 0.5 T (propagate); a null event
     # strictly inside a grid interval and one on a grid time (propagateBulk; the restart bookkeeping of the output)
@@ -531,7 +587,7 @@ def _run_prop(res, item):
         ev = _RestartEvent(t1, delta)
         got = _call(dyn.propagate, t0, t2, X.copy(), scheduled_events=[ev])
         if _bad(got) or np.asarray(got).shape != (6, K):
-            ctx.compare("restart", orbs[0], got, x0s[0], 1.0, 1.0, nontrivial=True, detail="batch_layout" + ev.suffix, extra={"K": K}, shape=(6, K))
+            ctx.compare("restart", orbs[0], got, x0s[0], 1.0, 1.0, nontrivial=True, detail="batch_layout" + _sfx(ev, got), extra={"K": K}, shape=(6, K))
         else:
             for k, orb in enumerate(orbs):
                 a, e = orb[0], orb[1]
@@ -542,37 +598,72 @@ def _run_prop(res, item):
                     continue
                 want = _call(dyn.propagate, t1, t2, mid + delta)
                 if not _bad(want):
-                    ctx.compare("restart", orb, got[:, k], want, tol_pos(a, e, T), tol_vel(a, e, T), nontrivial=True,
+                    ctx.compare("restart", orb, got[:, k], want, ctx.tp(a, e), ctx.tv(a, e), nontrivial=True,
                                 detail="batch_state_change" + ev.suffix, extra={"K": K, "col": k, "frac": f, "event_time": t1, "fired": ev.calls})
     if mode in ("full", "lean", "sp", "sp_lean") and K > 1:
+        with_dv = mode in ("full", "sp")  # a real state change where the hand-made split is affordable, else a null event
+        delta = np.concatenate((np.zeros(3), RESTART_DV)) if with_dv else np.zeros(6)
         for label, f in (("inside_interval", 0.5), ("on_grid_time", GRID3[0])):
-            ev = _RestartEvent(t0 + f * T, np.zeros(6))
+            t1 = t0 + f * T
+            ev = _RestartEvent(t1, delta)
             out = _call(dyn.propagateBulk, times, X.copy(), scheduled_events=[ev])
             if _bad(out) or np.asarray(out).shape != (6, K, len(gf)):
                 # root cause attribution: propagate() takes the same steps (t_eval does not influence them) and counts the firings
-                twin = _RestartEvent(t0 + f * T, np.zeros(6))
+                twin = _RestartEvent(t1, delta)
                 _call(dyn.propagate, t0, t2, X.copy(), scheduled_events=[twin])
-                ctx.compare("restart_bulk", orbs[0], out, x0s[0], 1.0, 1.0, nontrivial=True, detail=f"layout/{label}{twin.suffix}",
-                            extra={"K": K, "event_time": t0 + f * T, "fired": twin.calls}, shape=(6, K, len(gf)))
+                ctx.compare("restart_bulk", orbs[0], out, x0s[0], 1.0, 1.0, nontrivial=True, detail=f"layout/{label}{_sfx(twin, out)}",
+                            extra={"K": K, "event_time": t1, "fired": twin.calls}, shape=(6, K, len(gf)))
                 continue
             for k, orb in enumerate(orbs):
                 a, e = orb[0], orb[1]
+                # expected outputs: separate calls, with the change added by hand at t1
+                want = {}
+                if not with_dv:
+                    want = {fj: seps[k].get(fj) for fj in gf}
+                else:
+                    state = seps[k].get(f)
+                    if state is None:
+                        state = _call(dyn.propagate, t0, t1, x0s[k])
+                    state = state if _bad(state) else state + delta
+                    tcur = t1
+                    for fj in gf:
+                        if fj < f:
+                            want[fj] = seps[k].get(fj)
+                        elif fj == f:
+                            want[fj] = state
+                        else:
+                            state = state if _bad(state) else _call(dyn.propagate, tcur, t0 + fj * T, state)
+                            tcur = t0 + fj * T
+                            want[fj] = state
                 for j, fj in enumerate(gf):
-                    if fj in seps[k] and not _bad(seps[k][fj]):
-                        ctx.compare("restart_bulk", orb, out[:, k, j], seps[k][fj], tol_pos(a, e, T), tol_vel(a, e, T), nontrivial=True,
-                                    detail=label + ev.suffix, extra={"K": K, "col": k, "j": j, "event_frac": f})
+                    if want.get(fj) is None or _bad(want[fj]):
+                        continue
+                    ref = want[fj]
+                    if with_dv and fj == f:
+                        # The output time IS the event time: whether this output is the state just before or just after
+                        # the change is decided by the last bit of the solver's event root (celestial.py compares it with
+                        # the output time by ==): either side is accepted (boundary case on the predicate's own threshold).
+                        res.either_way += 1
+                        pre = ref - delta
+                        if fw.maxabs(np.asarray(out[:, k, j])[3:], pre[3:]) < fw.maxabs(np.asarray(out[:, k, j])[3:], ref[3:]):
+                            ref = pre
+                    ctx.compare("restart_bulk", orb, out[:, k, j], ref, ctx.tp(a, e), ctx.tv(a, e), nontrivial=True,
+                                detail=label + ev.suffix, extra={"K": K, "col": k, "j": j, "event_frac": f, "event_time": t1, "fired": ev.calls})
     return ctx
 
 
 def _conserve(ctx, orb, x0, x1, nontrivial, where):
     a = orb[0]
     tol = tol_conserve(a, ctx.T)
-    e0, e1 = kr.energy(x0), kr.energy(x1)
-    h0, h1 = kr.ang_mom(x0), kr.ang_mom(x1)
-    n0, n1 = kr.vnorm(h0), kr.vnorm(h1)
-    de = abs(e1 - e0) / abs(e0)
-    dh = abs(n1 - n0) / n0
-    ddir = kr.vnorm(kr.cross(h0, h1)) / (n0 * n1)
+    try:
+        e0, e1 = kr.energy(x0), kr.energy(x1)
+        h0, h1 = kr.ang_mom(x0), kr.ang_mom(x1)
+        n0, n1 = kr.vnorm(h0), kr.vnorm(h1)
+        de = abs(e1 - e0) / abs(e0)
+        dh = abs(n1 - n0) / n0
+        ddir = kr.vnorm(kr.cross(h0, h1)) / (n0 * n1)
+    except (ZeroDivisionError, OverflowError, ValueError):  # degenerate output state (r = 0, h = 0, non-finite)
+        de = dh = ddir = math.inf
     ctx.ratio("conserve", max(de, dh, ddir) / tol)
     for name, val in (("energy", de), ("h_norm", dh), ("h_direction", ddir)):
         ctx.res.case("conserve", ctx.base(orb, quantity=name, where=where), val <= tol, nontrivial=nontrivial,
@@ -582,8 +673,8 @@ def _conserve(ctx, orb, x0, x1, nontrivial, where):
 
 def _epoch(ctx, orb, x0, whole, jd):
     T, t0 = ctx.T, ctx.t0
-    tp = tol_epoch(orb[0], orb[1], T)
-    tv = tol_vel(orb[0], orb[1], T) / 5.0
+    tp = tol_epoch(orb[0], orb[1], T) + ctx.srp_pos
+    tv = tol_vel(orb[0], orb[1], T) / 5.0 + ctx.srp_vel
     # measured sensitivity: the same call with the epoch moved by 1000 s and t NOT compensated
     wit = _call(_dynamics(ctx.kind, ctx.method, jd + 1000.0 / 86400.0).propagate, t0, t0 + T, x0)
     sens = 0.0 if _bad(wit) else fw.maxabs(wit[:3], whole[:3])
@@ -597,15 +688,27 @@ def _epoch(ctx, orb, x0, whole, jd):
 
 
 # ------------------------------------------------------------------------------------------------ closed-form solver
-def _tol_universal(state_ref, mu):
-    r = kr.vnorm(state_ref[:3])
-    # dchi <= _ATOL  =>  dt = dchi r / sqrt(mu), |dr| <= v dt with r v / sqrt(mu) <= sqrt(2 r); x2 margin (+1e-8 km: reference)
-    scale = math.sqrt(MU / mu) if mu != MU else 1.0
-    # + rounding of the f/g arithmetic (chi up to ~1e3 => ~1e3 eps relative): 1e-11 |r|, 1e-9 |v|; + reference 1e-8 km
-    v = kr.vnorm(state_ref[3:])
-    tp = 2.0 * CHI_ATOL * math.sqrt(2.0 * r) + (1e-8 if mu == MU else 1e-8 * r) + 1e-11 * r
-    tv = 2.0 * CHI_ATOL * math.sqrt(mu) / r + 1e-11 * (1.0 if mu == MU else v) + 1e-9 * v
-    return tp, tv, scale
+def _tol_universal(x0, state_ref, mu):
+    """Error budget of solveKeplerProblemUniversal, derived from its stopping rule.
+
+    The loop stops when the universal anomaly moved by d < _ATOL = 1.48e-8 sqrt(km) and then evaluates f, g with the NEW
+    chi but the Stumpff terms c2, c3 and r of the PREVIOUS iterate.  Three contributions, each <= d times a sensitivity:
+    * a pure time shift dt = d r / sqrt(mu):           |dr| <= d r v / sqrt(mu) <= d sqrt(2 r);
+    * f = 1 - chi^2/r0 c2(psi_old): |c2'(psi)| <= 1/(2 psi^1.5) and dpsi = 2 chi alpha d give r0 |df| <= d sqrt(|a|);
+    * g = tof - chi^3/sqrt(mu) c3(psi_old): |c3'| <= 1/psi^2 gives v0 |dg| <= 2 d |a| v0 / sqrt(mu).
+    (measured worst over 8 seeds of the bound-orbit lattice: 0.23 of the sum, a=26560/e=0.7 over two revolutions.)
+    |a| is capped at 1e5 km: for the near-parabolic branch cases psi stays small and the large-psi bounds above are not
+    attained.  x2 margin; + rounding of the f/g arithmetic (chi up to ~1e3 => ~1e3 eps relative): 1e-11 |r|, 1e-9 |v|;
+    + accuracy of the reference 1e-8 km.  Velocity: position budget times the larger angular rate of the two ends."""
+    r0, v0 = kr.vnorm(x0[:3]), kr.vnorm(x0[3:])
+    r, v = kr.vnorm(state_ref[:3]), kr.vnorm(state_ref[3:])
+    alpha = 2.0 / r0 - v0 * v0 / mu
+    unit = 1.0 if mu == MU else r0  # canonical-unit cases: scale the absolute floors with the problem size
+    a_eff = min(1.0 / max(abs(alpha), 1e-300), 1e5 * unit)
+    sens = math.sqrt(2.0 * r) + math.sqrt(a_eff) + 2.0 * a_eff * v0 / math.sqrt(mu)
+    tp = 2.0 * CHI_ATOL * sens + 1e-8 * unit + 1e-11 * r
+    tv = 2.0 * tp * max(v0 / r0, v / r) + 1e-11 * (1.0 if mu == MU else v) + 1e-9 * v
+    return tp, tv
 
 
 def _universal_case(res, item, x0, tof, mu, case, detail, loose=1.0):
@@ -616,7 +719,7 @@ def _universal_case(res, item, x0, tof, mu, case, detail, loose=1.0):
         res.case("kepler_universal", case, False, nontrivial=True, signature=f"C03/kepler_universal/{detail}/exception/{type(exc).__name__}",
                  observed=repr(exc)[:200], expected=ref, item=item)
         return None
-    tp, tv, _ = _tol_universal(ref, mu)
+    tp, tv = _tol_universal(x0, ref, mu)
     tp, tv = tp * loose, tv * loose
     got = np.asarray(got, dtype=float)
     okshape = got.shape == (6,) and bool(np.all(np.isfinite(got)))
@@ -715,6 +818,19 @@ def _run_helpers(res, item):
     res.case("helpers/constants", {"name": "integrator tolerances"}, Dynamics.RELATIVE_TOL == RTOL and Dynamics.ABSOLUTE_TOL == ATOL,
              nontrivial=True, signature="C03/helpers/constants/integrator_tolerances_differ_from_calibration",
              observed=[Dynamics.RELATIVE_TOL, Dynamics.ABSOLUTE_TOL], expected=[RTOL, ATOL], item=item)
+    # documented argument contracts of the two propagation entry points (both integrators)
+    x0 = _state(_orbit(31, seed))
+    for method in METHODS:
+        dyn = TwoBody(method=method)
+        for name, fn in (
+            ("propagate/final_equals_initial", lambda d=dyn: d.propagate(300.0, 300.0, x0.copy())),
+            ("propagate/final_before_initial", lambda d=dyn: d.propagate(300.0, 299.0, x0.copy())),
+            ("propagateBulk/one_time", lambda d=dyn: d.propagateBulk([300.0], x0.copy())),
+            ("propagateBulk/final_before_initial", lambda d=dyn: d.propagateBulk([300.0, 200.0, 100.0], x0.copy())),
+        ):
+            out = _call(fn)
+            res.case("contract", {"call": name, "method": method}, isinstance(out, ValueError), nontrivial=True,
+                     signature=f"C03/contract/{name}", observed=repr(out)[:120], expected="ValueError", item=item)
     states = [(_orbit(i, seed), None) for i in range(90)]
     p_raan, p_argp, _ = _phase(seed)
     for name, a, e in (("hyperbola", -20000.0, 1.5), ("near_parabola", 2.0e6, 0.9965)):
@@ -825,6 +941,7 @@ def _run_stumpff(res, item):
 def run_item(item):
     res = fw.Result()
     cpu0 = time.process_time()
+    _HUNG["flag"] = False
     kind = item[0]
     if kind == "prop":
         ratios = _run_prop(res, item).ratios
